@@ -11,6 +11,7 @@ structure Mon where
   out : List Nat := []      -- returned by Next and neither Ready'd, ejected nor re-added since
   gone : List Nat := []     -- ejected and not re-added since
   everAdded : List Nat := []
+  order : List Nat := []    -- arrival order in the ready list as implied by the API calls so far
 
 structure St where
   m : State := {}
@@ -30,7 +31,7 @@ def step (s : St) (kind : String) (args impl : List String) : Option (St × Step
   | ["add", t] => do
     let h ← hash? t
     let dup := h ∈ s.m.ready ∨ h ∈ s.m.pending
-    let mon := { s.mon with out := s.mon.out.filter (· ≠ h), gone := s.mon.gone.filter (· ≠ h), everAdded := h :: s.mon.everAdded }
+    let mon := { s.mon with out := s.mon.out.filter (· ≠ h), gone := s.mon.gone.filter (· ≠ h), everAdded := h :: s.mon.everAdded, order := s.mon.order ++ [h] }
     pure ({ m := add s.m h, mon, wf := s.wf && !dup }, { obs := ["ok"], branch := if dup then "add.dup" else "add.fresh" })
   | ["next"] =>
     let (m', r) := next s.m
@@ -41,24 +42,26 @@ def step (s : St) (kind : String) (args impl : List String) : Option (St × Step
         | some h =>
           (if h ∈ s.mon.out then [s!"side=impl key=served-twice next returned {t} again without Ready/Add"] else []) ++
           (if h ∈ s.mon.gone then [s!"side=impl key=served-after-eject next returned ejected {t}"] else []) ++
-          (if h ∉ s.mon.everAdded then [s!"side=impl key=served-unknown next returned {t} never added"] else [])
+          (if h ∉ s.mon.everAdded then [s!"side=impl key=served-unknown next returned {t} never added"] else []) ++
+          (if s.mon.order.head? ≠ some h then [s!"side=impl key=out-of-order next returned {t}, oldest ready is {s.mon.order.head?.map hashTok}"] else [])
         | none => []
+      | ["none"] => if s.mon.order ≠ [] then [s!"side=impl key=lost next returned none while {s.mon.order.map hashTok} are ready"] else []
       | _ => []
     let mon := match impl with
       | ["some", t] => match hash? t with
-        | some h => { s.mon with out := h :: s.mon.out }
+        | some h => { s.mon with out := h :: s.mon.out, order := s.mon.order.erase h }
         | none => s.mon
       | _ => s.mon
     some ({ s with m := m', mon }, { obs, branch := if r.isSome then "next.some" else "next.none", propfails := pf })
   | ["ready", t] => do
     let h ← hash? t
     let isP := h ∈ s.m.pending
-    let mon := { s.mon with out := s.mon.out.filter (· ≠ h) }
+    let mon := { s.mon with out := s.mon.out.filter (· ≠ h), order := if h ∈ s.mon.out then s.mon.order ++ [h] else s.mon.order }
     pure ({ s with m := ready s.m h, mon }, { obs := ["ok"], branch := if isP then "ready.pending" else "ready.noop" })
   | ["eject", t] => do
     let h ← hash? t
     let br := if h ∈ s.m.ready then "eject.ready" else if h ∈ s.m.pending then "eject.pending" else "eject.absent"
-    let mon := { s.mon with out := s.mon.out.filter (· ≠ h), gone := h :: s.mon.gone }
+    let mon := { s.mon with out := s.mon.out.filter (· ≠ h), gone := h :: s.mon.gone, order := s.mon.order.erase h }
     pure ({ s with m := eject s.m h, mon }, { obs := ["ok"], branch := br })
   | _ => none
 
